@@ -21,3 +21,45 @@ package gnmi
 //@ func (*Client).setQueue
 //@   trusted
 //@   note body not verified (stores the queue under the client's lock)
+
+// One emitted message becomes one response: a delete of its path, the sync marker, or one update of its path with its
+// current value - at the message's timestamp.
+//@ pred RN(r *gpb.SubscribeResponse) := r.Response.(*gpb.SubscribeResponse_Update).Update
+//@ func valToResp
+//@   props C20 C12
+//@   requires ArmSet(val) && val.Timestamp != nil
+//@   ensures [delete-of-the-path-at-the-message-timestamp C20] isa(val.Value.(*fpb.Value_Delete)) ==> res1 == nil && res0 != nil && isa(res0.Response.(*gpb.SubscribeResponse_Update)) && RN(res0) != nil
+//@     && RN(res0).Timestamp == val.Timestamp.Timestamp && len(RN(res0).Update) == 0 && len(RN(res0).Delete) == 1 && RN(res0).Delete[0] != nil && RN(res0).Delete[0].Element == val.Path
+//@   ensures [sync-marker-as-configured C20] isa(val.Value.(*fpb.Value_Sync)) ==> res1 == nil && res0 != nil && isa(res0.Response.(*gpb.SubscribeResponse_SyncResponse))
+//@     && (res0.Response.(*gpb.SubscribeResponse_SyncResponse).SyncResponse <==> val.Value.(*fpb.Value_Sync).Sync > 0)
+//@   ensures [update-of-the-path-at-the-message-timestamp C20] !isa(val.Value.(*fpb.Value_Delete)) && !isa(val.Value.(*fpb.Value_Sync)) && res1 == nil ==> res0 != nil && isa(res0.Response.(*gpb.SubscribeResponse_Update)) && RN(res0) != nil
+//@     && RN(res0).Timestamp == val.Timestamp.Timestamp && len(RN(res0).Delete) == 0 && len(RN(res0).Update) == 1 && RN(res0).Update[0] != nil && RN(res0).Update[0].Path != nil
+//@     && RN(res0).Update[0].Path.Element == val.Path && RN(res0).Update[0].Val != nil
+//@   ensures [a-message-without-value-is-refused C20] val.Value == nil ==> res1 != nil
+//@   ensures [a-response-always-has-its-payload C12] res1 == nil ==> res0 != nil && res0.Response != nil && payload(res0.Response) != nil
+
+// The send loop: one event is taken from the queue at a time (under the queue lock, never by a cancelled client) and sent
+// before the next one is taken - so the stream carries the queue's events in the queue's order, each once - with the
+// subscription's target stamped on updates when the request named one.
+//@ func (*Client).isCanceled
+//@   props C20 C12
+//@   requires c != nil
+//@ func (*Client).nextInQueue
+//@   props C20 C12
+//@   requires c != nil
+//@   modifies *
+//@   ensures [client-wiring-untouched C12] c.subscribe == old(c.subscribe) && c.config == old(c.config) && c.polled == old(c.polled)
+//@   ensures [at-most-one-event-taken C20] hits("call Queue.Next#0") <= old(hits("call Queue.Next#0")) + 1
+//@   ensures [an-event-or-an-error C20] res1 == nil ==> hits("call Queue.Next#0") == old(hits("call Queue.Next#0")) + 1
+//@   ensures [event-kinds C12] res1 == nil && res0 != nil ==> (isa(res0.(*fpb.Value)) && ArmSet(res0.(*fpb.Value)) && res0.(*fpb.Value).Timestamp != nil) || (isa(res0.(*gpb.SubscribeResponse)) && res0.(*gpb.SubscribeResponse) != nil)
+//@ func (*Client).processQueue
+//@   props C20 C12
+//@   requires c != nil && stream != nil && c.subscribe != nil && c.config != nil && c.polled != nil
+//@   modifies *
+//@   invariant 0: c != nil && stream != nil && c.subscribe != nil && c.config != nil && c.polled != nil
+//@     && hits("call BidiStreamingServer.Send#0") - old(hits("call BidiStreamingServer.Send#0")) == hits("call (*Client).nextInQueue#0") - old(hits("call (*Client).nextInQueue#0"))
+//@   assert at call BidiStreamingServer.Send#0: [every-taken-event-is-sent-before-the-next-is-taken C20] arg0 != nil
+//@     && hits("call BidiStreamingServer.Send#0") - old(hits("call BidiStreamingServer.Send#0")) == hits("call (*Client).nextInQueue#0") - old(hits("call (*Client).nextInQueue#0"))
+//@   assert at call BidiStreamingServer.Send#0: [updates-carry-the-subscribed-target C20] c.subscribe.Prefix != nil && c.subscribe.Prefix.Target != "" && RespUpdate(arg0) != nil
+//@     ==> RespUpdate(arg0).Prefix != nil && RespUpdate(arg0).Prefix.Target == c.subscribe.Prefix.Target
+//@   ensures [stream-ends-with-the-queue-or-an-error C20] hits("call (*Client).nextInQueue#0") - old(hits("call (*Client).nextInQueue#0")) - (hits("call BidiStreamingServer.Send#0") - old(hits("call BidiStreamingServer.Send#0"))) <= 1
